@@ -111,6 +111,22 @@ def make_serializer(name):
     return {"json": wser.JsonSerializer, "msgpack": wser.MsgPackSerializer, "cbor": wser.CBORSerializer}[name]()
 
 
+def make_exc_class(cid, ctor):
+    """kw: accepts any args/kwargs; plain: Exception subclass (no keywords); noarg: takes nothing"""
+    if ctor == "kw":
+        def __init__(self, *a, **k):
+            Exception.__init__(self, *a)
+            self.kwargs = k
+        ns = {"__init__": __init__}
+    elif ctor == "noarg":
+        def __init__(self):
+            Exception.__init__(self)
+        ns = {"__init__": __init__}
+    else:
+        ns = {}
+    return type("C%d" % cid, (Exception,), ns)
+
+
 class Wire:
     def __init__(self):
         self.sent = []
@@ -246,6 +262,9 @@ class Run:
         sp = self.spec
         A, aw = self.new_session(sp["A"], 1001)
         B, bw = self.new_session(sp["B"], 1002)
+        # exception classes the CALLER registers for error URIs: [[uri, ctor], ...] -> class C<10+i>
+        for i, (ruri, ctor) in enumerate(sp.get("caller_reg") or []):
+            A.s.define(make_exc_class(10 + i, ctor), ruri)
         f1, f2 = sp.get("fault1"), sp.get("fault2")
         env_uri = f1["uri"] if f1 and f1["t"] == "swap" else sp["uri"]
         res = sp.get("result") or {"args": [], "kwargs": None, "progress": False}
@@ -300,6 +319,10 @@ class Run:
                     out["err_args"] = [vid(a) for a in v.args]
                     out["err_text"] = str(v.args[0]) if v.args and isinstance(v.args[0], str) else ""
                     out["err_kwargs"] = [[kk, vid(x)] for kk, x in (v.kwargs or {}).items()]
+                elif type(v).__name__.startswith("C") and type(v).__name__[1:].isdigit():
+                    kw_ = getattr(v, "kwargs", None)
+                    out["done"] = ["class", int(type(v).__name__[1:]), [vid(a) for a in v.args],
+                                   [[kk, vid(x)] for kk, x in (kw_ if isinstance(kw_, dict) else {}).items()]]
                 else:
                     out["done"] = ["failed-other", type(v).__name__]
             txaio.add_callbacks(fut, ok, err)
